@@ -21,6 +21,7 @@
   short (separate, one byte shorter: must take the documented panic).
 -/
 import Driver.Util
+import Driver.C07
 import GoMC.Spec.CFB8
 import GoMC.Spec.AES
 import GoMC.Model.CFB8
@@ -168,12 +169,12 @@ def parsePkt (s : String) : Option Model.ConnHist.Pkt :=
   match s.splitOn ":" with
   | [i, h] => do
     let id ← i.toInt?
-    let d ← parseHex h
+    let d ← Driver.C07.parseBx h     -- hex, or a compact description such as g<seed>.<len> (harness/c07.go)
     pure (id, d)
   | _ => none
 
 def showPkts (l : List Model.ConnHist.Pkt) : String :=
-  if l.isEmpty then "-" else ";".intercalate (l.map fun (i, d) => s!"{i}:{hexOfBytes d}")
+  if l.isEmpty then "-" else ";".intercalate (l.map fun (i, d) => s!"{i}:{Driver.C07.dig d}")
 
 def parseStep (st : String) : Option Model.ConnHist.Step :=
   match st.toList with
@@ -195,9 +196,10 @@ def runSess : Model.ConnHist.Sess → Nat → List Model.ConnHist.Step → Strin
 def conn (args : List String) (obs : String) : Verdict :=
   match kv args "pkts" with
   | some pkts =>
-    let want := "ok " ++ pkts
     -- model: the packet-level session (all packets written by one end, all read by the other, kept to the end)
     let ps := if pkts == "-" then some [] else (pkts.splitOn ";").mapM parsePkt
+    -- oracle: exactly the packets sent, in order (payloads printed as digests on both sides)
+    let want := "ok " ++ (match ps with | some l => showPkts l | none => pkts)
     let model := match ps with
       | some l => runSess {} 0 (l.map (Model.ConnHist.Step.send true) ++ l.map fun _ => Model.ConnHist.Step.recv false)
       | none => "bad-arg pkts"
@@ -271,23 +273,25 @@ def sess (args : List String) (obs : String) : Verdict :=
   | none => bad "conn.sess"
   | some sc =>
     let steps := if sc == "-" then [] else sc.splitOn ","
-    let sentBy (who : Char) : List String :=
-      steps.filterMap fun st => if st.startsWith (String.singleton who ++ ">") then some (st.drop 2).toString else none
-    let readsOf (who : Char) : Nat :=
-      (steps.filter fun st => st == String.singleton who ++ "<" || st == String.singleton who ++ "<=").length
-    let show_ (l : List String) : String := if l.isEmpty then "-" else ";".intercalate l
-    let a := show_ ((sentBy 'b').take (readsOf 'a'))
-    let b := show_ ((sentBy 'a').take (readsOf 'b'))
-    let toks := obs.splitOn " "
-    let spec : Option String :=
-      if toks.head? != some "ok" then some "a packet was lost, damaged or refused"
-      else if toks.any (·.startsWith "changed-was:") then some "a packet changed after it was delivered (later traffic wrote into it)"
-      else if kv toks "a" != some a || kv toks "b" != some b then some "packets received differ from packets sent"
-      else none
-    let model := match steps.mapM parseStep with
-      | some st => runSess {} 0 st
-      | none => "bad-arg script"
-    { model, spec }
+    match steps.mapM parseStep with
+    | none => bad "script"
+    | some st =>
+      -- oracle, from the script alone: the packets the other end wrote, as many as this end read
+      let sentBy (fromA : Bool) : List Model.ConnHist.Pkt :=
+        st.filterMap fun x => match x with
+          | .send f p => if f == fromA then some p else none
+          | _ => none
+      let readsOf (atA : Bool) : Nat :=
+        (st.filter fun x => match x with | .recv f => f == atA | _ => false).length
+      let a := showPkts ((sentBy false).take (readsOf true))
+      let b := showPkts ((sentBy true).take (readsOf false))
+      let toks := obs.splitOn " "
+      let spec : Option String :=
+        if toks.head? != some "ok" then some "a packet was lost, damaged or refused"
+        else if toks.any (·.startsWith "changed-was:") then some "a packet changed after it was delivered (later traffic wrote into it)"
+        else if kv toks "a" != some a || kv toks "b" != some b then some "packets received differ from packets sent"
+        else none
+      { model := runSess {} 0 st, spec }
 
 def handle (op : String) (args : List String) (obs : String) : Option Verdict :=
   match op with
